@@ -123,6 +123,11 @@ func ClientBasicAuth(r *http.Request, storage Storage) (clientID string, err err
 	if err != nil {
 		return "", oidc.ErrInvalidClient().WithParent(ErrInvalidAuthHeader)
 	}
+	if clientSecret == "" {
+		// an empty secret never authenticates: storages commonly compare it with the
+		// (empty) stored secret of public or private_key_jwt clients
+		return "", oidc.ErrUnauthorizedClient().WithDescription("empty client secret")
+	}
 	if err := storage.AuthorizeClientIDSecret(r.Context(), clientID, clientSecret); err != nil {
 		return "", oidc.ErrUnauthorizedClient().WithParent(err)
 	}
